@@ -193,7 +193,44 @@ def generate(r, tier, index):
     n_stage = r.choice([1, 1, 2, 3])
     assign = [r.randrange(n_stage) for _ in root['items']]
     route = r.choice(['text', 'files', 'include_top', 'include_key', 'multidoc'])
-    return {'struct': root, 'mode': mode, 'assign': assign, 'n_stage': n_stage, 'route': route, 'tag': r.choice(['!xref', '!ref'])}
+    # history: an earlier build of a similar config (other leaf values, dangling targets present) evaluated with the same context object
+    prior = r.random() < 0.25
+    return {'struct': root, 'mode': mode, 'assign': assign, 'n_stage': n_stage, 'route': route, 'tag': r.choice(['!xref', '!ref']), 'prior': prior}
+
+
+def _prior_struct(root):
+    """The config built earlier with the same evaluation context: same shape, every leaf holds another value, and
+    top-level names the later config refers to without defining them exist."""
+    pr = copy.deepcopy(root)
+
+    def walk(n):
+        if n['t'] == 'leaf':
+            v = n['v']
+            n['v'] = (v + '-from-the-earlier-build') if isinstance(v, str) and v else 'earlier-value-of-a-falsy-leaf' if not v else v + 7
+        elif n['t'] in ('map', 'call'):
+            for _, c in n['items']:
+                walk(c)
+        elif n['t'] == 'list':
+            for c in n['items']:
+                walk(c)
+    walk(pr)
+    have = {k for k, _ in pr['items']}
+
+    def refs(n, out):
+        if n['t'] == 'ref':
+            out.append(n['to'])
+        elif n['t'] in ('map', 'call'):
+            for _, c in n['items']:
+                refs(c, out)
+        elif n['t'] == 'list':
+            for c in n['items']:
+                refs(c, out)
+        return out
+    for to in refs(pr, []):
+        if len(to) == 1 and to[0] not in have:
+            pr['items'].append([to[0], {'t': 'leaf', 'v': 'defined-in-the-earlier-build-only'}])
+            have.add(to[0])
+    return pr
 
 
 # ---------------------------------------------------------------------------------------------
@@ -347,6 +384,21 @@ def _child(sc):
     out = {}
 
     def client():
+        from awesomeyaml import EvalContext
+        ctx = None
+        if sc.get('prior'):
+            ctx = EvalContext()
+            sched.begin_op('prior_build', budget_for(sc))
+            try:
+                pb = Builder()
+                pb.add_source(emit.emit_doc(_to_emit(_prior_struct(sc['struct']), sc['tag'])), raw_yaml=True)
+                Config(pb.build(), eval_ctx=ctx)
+                out['prior'] = 'ok'
+            except sched.SimTimeout:
+                out['prior'] = 'timeout'
+            except errors.Error as e:
+                out['prior'] = 'error:' + type(e).__name__
+            sched.end_op()
         sched.begin_op('build', budget_for(sc))
         try:
             b = Builder()
@@ -355,7 +407,7 @@ def _child(sc):
                     b.add_source(src['path'], raw_yaml=False)
                 else:
                     b.add_source(src['text'], raw_yaml=True)
-            cfg = Config(b.build())
+            cfg = Config(b.build()) if ctx is None else Config(b.build(), eval_ctx=ctx)
             out['status'] = 'ok'
             out['cfg'] = cfg
         except sched.SimTimeout:
@@ -370,7 +422,7 @@ def _child(sc):
     sc_ = sched.Scheduler({'policy': 'serial'}, opcodes=False)
     sc_.run([client])
     res = {'status': out['status'], 'lines': out['lines'], 'liveness': sc_.liveness, 'exc': out.get('exc'),
-           'is_eval_error': out.get('is_eval_error'), 'is_ay_error': out.get('is_ay_error'), 'opens': len(fs.opened_ok())}
+           'is_eval_error': out.get('is_eval_error'), 'is_ay_error': out.get('is_ay_error'), 'opens': len(fs.opened_ok()), 'prior': out.get('prior')}
     if out['status'] == 'ok':
         cfg = out['cfg']
         bad, final = model(sc['struct'])
@@ -418,6 +470,8 @@ def execute(sc):
     st['runs'] = 1
     st.setdefault('outcomes', {})[v['status'] + ':' + (bad or 'acyclic')] = 1
     st.setdefault('probes', {})['max_op_lines'] = v['lines']
+    if v.get('prior'):
+        st.setdefault('faults', {})['earlier_build_same_context:' + v['prior'].split(':')[0]] = 1
     chain_len = max([0] + [int(k[1:]) + 1 for k, _ in sc['struct']['items'] if k.startswith('c') and k[1:].isdigit()])
     into_container = any(len(t) > 1 for t in final.values())
     if bad or chain_len >= 2 or into_container:
@@ -455,6 +509,10 @@ def shrink(sc):
         c = copy.deepcopy(sc)
         del c['struct']['items'][i]
         del c['assign'][i]
+        yield c
+    if sc.get('prior'):
+        c = copy.deepcopy(sc)
+        c['prior'] = False
         yield c
     if sc['route'] != 'text':
         c = copy.deepcopy(sc)
